@@ -76,6 +76,11 @@ def build_lib(flavor):
            "-DOVM_ENABLE_EXAMPLES=OFF", "-DOVM_BUILD_DOCUMENTATION=OFF",
            "-DBUILD_SHARED_LIBS=OFF"]
     rc, out = _run(cfg, env=env, logfile=logfile)
+    if rc != 0 and "does not match the source" in out:
+        # the cache directory was last used with another checkout of the repository: start this flavor's library build over
+        import shutil
+        shutil.rmtree(libdir, ignore_errors=True); os.makedirs(libdir, exist_ok=True)
+        rc, out = _run(cfg, env=env, logfile=logfile)
     if rc != 0:
         raise RuntimeError("cmake configure failed for %s:\n%s" % (flavor, out[-3000:]))
     rc, out = _run(["ninja", "-C", libdir, "OpenVolumeMesh"], env=env, logfile=logfile)
